@@ -584,6 +584,9 @@ func (x *Exec) call(fn *ssa.Function, args []Val, env []Val) Val {
 				if nb, ok := x.ifConvert(fr, blk, c); ok {
 					next = nb
 					skipPhi = true
+				} else if nb, from, ok := x.regionDispatch(fr, blk, c); ok {
+					next = nb
+					blk = from
 				} else if x.truth(c) {
 					next = blk.Succs[0]
 				} else {
